@@ -259,6 +259,44 @@ func c07BoundPrograms() []*Program {
 	return out
 }
 
+// ---- an object iterated, given a new key through another reference, and iterated again: every key exactly once each time
+
+func c07ObjAliasPrograms() []*Program {
+	var out []*Program
+	o := V("o")
+	loop := func(tag string, it Expr) Stmt {
+		return &ForIn{V: "k", V2: "v", It: it, Body: Blk(Pr(S(tag), V("k"), V("v")))}
+	}
+	obj := func(keys ...string) *ObjectLit {
+		l := &ObjectLit{}
+		for i, k := range keys {
+			l.Keys = append(l.Keys, k)
+			l.Quoted = append(l.Quoted, false)
+			l.Vals = append(l.Vals, N(strconv.Itoa(i+1)))
+		}
+		return l
+	}
+	addFn := &Func{Name: "add", Params: []string{"t", "key"}, Body: Blk(asg(Idx(V("t"), V("key")), S("added")), &Return{X: V("t")})}
+	for _, init := range []*ObjectLit{obj("b"), obj("b", "d"), obj(), obj("m", "c", "x")} {
+		adds := [][]Stmt{
+			{asg(V("p"), o), asg(Mem(V("p"), "a"), S("new"))},
+			{ES(CallE(V("add"), o, S("a")))},
+			{asg(V("r"), CallE(V("add"), o, S("zz"))), asg(Mem(V("r"), "a"), S("new"))},
+			{asg(V("h"), obj1("inner", o)), asg(Mem(Mem(V("h"), "inner"), "a"), S("new"))},
+			{asg(V("arr"), Arr(o)), asg(Mem(Idx(V("arr"), N("0")), "a"), S("new"))},
+			{asg(Mem(o, "a"), S("new"))},
+			{&ForIn{V: "e", It: Arr(o), Body: Blk(asg(Mem(V("e"), "a"), S("new")))}},
+		}
+		for _, add := range adds {
+			body := []Stmt{asg(o, init), loop("first", o), Pr(S("length"), Meth(o, "length"))}
+			body = append(body, add...)
+			body = append(body, loop("second", o), Pr(S("length"), Meth(o, "length")), asg(V("q"), o), asg(Mem(V("q"), "b2"), N("9")), loop("third", o), loop("third-through-q", V("q")))
+			out = append(out, &Program{Items: []any{addFn, &Rule{Kind: "BEGIN", Body: &Block{Stmts: body}}}})
+		}
+	}
+	return out
+}
+
 // ---- long histories: the signals work the same on the 100000th round as on the first (law on the implementation alone)
 
 type c07Long struct{ name, prog, input, want string }
@@ -438,7 +476,7 @@ func c07ObjOrder(c *Case) {
 }
 
 var c07Chains = c07ChainPrograms()
-var c07Bounds = c07BoundPrograms()
+var c07Bounds = append(c07BoundPrograms(), c07ObjAliasPrograms()...)
 
 func c07Cases(tier string) int {
 	n := len(c07Matrix())*3 + 300 + len(c07Headers())*3 + len(c07Longs()) + len(c07Chains) + len(c07Bounds)
@@ -531,7 +569,7 @@ func c07Run(c *Case) {
 func init() {
 	register(&Prop{
 		ID: "C07", Level: "exploration",
-		Rule:          "enumerated: 5 signals (break continue return next exit) x 5 loop kinds x {inner, outer loop of a 2-nest} x {before, after the trace print} x 3 guard positions, inside a function called from the first of two pattern rules over a 2-element input; 300 object-order cases (2-12 keys: every key once, identical order in two iterations and 8 runs); 5 signals raised from inside a loop header (for initialiser / condition / post-expression, while condition, for-in iterable, through a match block) x 3 enclosing loop kinds x 3 guard positions: the header is not inside its own loop; 11 long histories (70000-150000 rounds of continue / break / return / next, also from match blocks and from a called function, results known in closed form): the hundred-thousandth signal works like the first; 164 else-if chains of 2-5 conditions that count their own evaluations (every combination of thresholds 0/1/2/3/100, with and without braces, two passes): each condition evaluated at most once per pass, in order; 72 loops (for, while, bound on the left) whose bound is a variable changed by the body, the post-expression or a called function (shrinking, growing, zeroed): the condition is evaluated afresh before every round; sampled: structured programs (if/else incl. brace-less and dangling else, while, 3-clause for, for-in over arrays/strings/objects, nesting <= 5, guarded signals, functions) whose stdout trace is compared line by line with the reference model. Non-trivial = trace of >= 5 lines and at least one signal executed (counted in the model's execution); distinct by program text.",
+		Rule:          "enumerated: 5 signals (break continue return next exit) x 5 loop kinds x {inner, outer loop of a 2-nest} x {before, after the trace print} x 3 guard positions, inside a function called from the first of two pattern rules over a 2-element input; 300 object-order cases (2-12 keys: every key once, identical order in two iterations and 8 runs); 5 signals raised from inside a loop header (for initialiser / condition / post-expression, while condition, for-in iterable, through a match block) x 3 enclosing loop kinds x 3 guard positions: the header is not inside its own loop; 11 long histories (70000-150000 rounds of continue / break / return / next, also from match blocks and from a called function, results known in closed form): the hundred-thousandth signal works like the first; 164 else-if chains of 2-5 conditions that count their own evaluations (every combination of thresholds 0/1/2/3/100, with and without braces, two passes): each condition evaluated at most once per pass, in order; 72 loops (for, while, bound on the left) whose bound is a variable changed by the body, the post-expression or a called function (shrinking, growing, zeroed): the condition is evaluated afresh before every round; 28 programs that iterate an object, give it a new key through another reference (second name, parameter, returned reference, member, element, loop variable) and iterate it again: every key exactly once each time; sampled: structured programs (if/else incl. brace-less and dangling else, while, 3-clause for, for-in over arrays/strings/objects, nesting <= 5, guarded signals, functions) whose stdout trace is compared line by line with the reference model. Non-trivial = trace of >= 5 lines and at least one signal executed (counted in the model's execution); distinct by program text.",
 		NumCases:      c07Cases,
 		Run:           c07Run,
 		MinConclusive: func(tier string) int { return 3000 },
